@@ -391,6 +391,11 @@ func MetaDataKVHandler(resHolder *SearchResult, attrGetter AttributeGetter, addi
 					continue
 				}
 				mch, val := convertFilterValue(fs[i].SearchFilter)
+				if i > 0 && !(intPrimMatcher && IsIntegerSearchOp(mch)) {
+					// index key has another form than the filter needs, and filter's range is
+					// unrelated to the walk: it is checked by attribute value below
+					continue
+				}
 				var matches bool
 				if IsIntegerSearchOp(mch) {
 					matches = fs[i].AutoMatch || intBytesMatch(primDBVal, mch, fs[i].Raw)
@@ -403,6 +408,10 @@ func MetaDataKVHandler(resHolder *SearchResult, attrGetter AttributeGetter, addi
 					matches = matchValues(checkedDBVal, mch, fltVal)
 				}
 				if !matches {
+					if i > 0 {
+						// one more numeric bound: only an upper one ends the walk through growing values
+						return mch != object.MatchNumLT && mch != object.MatchNumLE
+					}
 					if mch != object.MatchStringNotEqual && (wasPrimMatch || mch != object.MatchNumGT) {
 						return false
 					}
@@ -416,7 +425,7 @@ func MetaDataKVHandler(resHolder *SearchResult, attrGetter AttributeGetter, addi
 		}
 		// apply other filters
 		for i := range fs {
-			if !idIter && (i == 0 || fs[i].Header() == fs[0].Header()) { // 1st already checked
+			if !idIter && (i == 0 || fs[i].Header() == fs[0].Header() && intPrimMatcher && IsIntegerSearchOp(fs[i].Operation())) { // already checked
 				continue
 			}
 			attr := fs[i].Header() // emptiness already prevented
